@@ -29,6 +29,8 @@ pub enum Op {
 	Refresh,
 	/// (directed histories only) a send whose source is the third account, named while the default account is active
 	InitNamed { slot: usize },
+	/// (directed histories only) a send that spends one whole output and creates no change
+	InitExact { slot: usize },
 	/// (directed histories only) cancel of that send: the third account is made active for the call
 	CancelNamed { slot: usize },
 }
@@ -193,6 +195,16 @@ impl Model for M {
 					Err(e) => out.label = err_label(&e),
 				}
 			}
+			Op::InitExact { slot } => {
+				let exact = 60 * G - grin_core::libtx::tx_fee(1, 1, 1);
+				match w.w("A").init_send(default_args(exact)) {
+					Ok(s1) => {
+						sl[*slot] = Some(Slot { kind: "send".into(), id: s1.id.to_string(), s1: Some(slate_to_json(&s1)), ..Default::default() });
+						out.label = "ok".into();
+					}
+					Err(e) => out.label = err_label(&e),
+				}
+			}
 			Op::InitNamed { slot } => {
 				let mut args = default_args(AMOUNT);
 				args.src_acct_name = Some("acct2".to_owned());
@@ -299,6 +311,14 @@ impl Model for M {
 				};
 				match r {
 					Ok(s3) => {
+						// (for an invoice it is the issuer that finalizes, and the payer's cancel does not take
+						// back the signature it already handed over: only the sender's own finalization counts)
+						if s.cancelled && s.kind == "send" {
+							out.problem(
+								"finalize-after-cancel",
+								format!("finalization of the cancelled transaction in slot {} returned a transaction", slot),
+							);
+						}
 						if s.fin_ok > 0 {
 							let after = counts(w);
 							if after != before {
@@ -500,6 +520,7 @@ fn op_kind(op: &Op) -> &'static str {
 		Op::Mine => "mine",
 		Op::Refresh => "refresh",
 		Op::InitNamed { .. } => "init-named",
+		Op::InitExact { .. } => "init-exact",
 		Op::CancelNamed { .. } => "cancel-named",
 	}
 }
@@ -560,6 +581,12 @@ pub fn run(_args: &[String]) -> i32 {
 			paths.push(vec![Op::InitNamed { slot: 0 }, Op::Receive { slot: 0 }, Op::Lock { slot: 0 }, Op::CancelNamed { slot: 0 }, again.clone()]);
 		}
 		paths.push(vec![Op::InitNamed { slot: 0 }, Op::Lock { slot: 0 }, Op::Lock { slot: 0 }]);
+		// a cancelled transaction (with and without change) whose reply arrives after its outputs
+		// have been reserved by another one
+		for first in [Op::InitExact { slot: 0 }, Op::Init { slot: 0, use_all: false }, Op::Init { slot: 0, use_all: true }] {
+			paths.push(vec![first.clone(), Op::Lock { slot: 0 }, Op::Receive { slot: 0 }, Op::Cancel { slot: 0 }, Op::Finalize { slot: 0 }]);
+			paths.push(vec![first.clone(), Op::Lock { slot: 0 }, Op::Receive { slot: 0 }, Op::Cancel { slot: 0 }, Op::Init { slot: 1, use_all: true }, Op::Lock { slot: 1 }, Op::Finalize { slot: 0 }]);
+		}
 		let root = scratch_root();
 		let res = par_map(&paths, workers(), |i, p| {
 			// every prefix end is checked by run_path only at the last step: run the two tails separately
